@@ -123,8 +123,8 @@ CLAIMED = {
 # rules added after the first version of the texts above (appended to the text
 # and to the technique of the property)
 ADDENDA = {
- "C02": (" ENDS-CROSS: decision table of the emptiness tests BTree_rangeSearch runs once both end positions are known (min given, excludemin, max given, excludemax, same leaf): crossed ends in different leaves are detected by an end-key comparison whenever both ends were moved inward.",
-         "; decision table of the emptiness tests"),
+ "C02": (" ENDS-CROSS: decision table of the emptiness tests BTree_rangeSearch runs once both end positions are known (min given, excludemin, max given, excludemax, same leaf): crossed ends in different leaves are detected by an end-key comparison whenever both ends were moved inward. ERR-IGNORED: a local holding the result of a repository function that reports failure by a negative constant is only compared with constants, returned or copied until a branch edge has excluded the negative values.",
+         "; decision table of the emptiness tests; error-value typestate of call results"),
  "C03": (" SPLIT-COMMIT: after bucket_split/BTree_split succeeded no return is reachable in the caller before the sibling is stored as a child and len is increased; the split functions have no failure exit after their first store into the split node or the sibling's len.",
          "; path rule between split success and child store"),
  "C04": (" A new helper that leaves its node parameter unregistered is followed down chains of such helpers and reported at the innermost one when some caller does not register (void helpers included: falling off the end of a body is a return).", ""),
